@@ -384,7 +384,11 @@ func (p *Path) outside(v ssa.Value) Val {
 			p.assume(fmt.Sprintf("(=> (and (<= (stamp %s) now_0) (not %s)) (= %s (select %s %s)))", addr, p.modCond(hn, addr), name, p.heapIn(&p.entry, hn), addr))
 		}
 		if a, ok := v.(*ssa.Alloc); ok {
-			p.assume(fmt.Sprintf("(and (not (= %s nil)) (> (stamp %s) %s) (<= (stamp %s) %s) (= (ftag %s) 0))", name, name, p.entry.now, name, p.st.epochNow, name))
+			tag := "0"
+			if isStackCell(a) {
+				tag = "(- 5)"
+			}
+			p.assume(fmt.Sprintf("(and (not (= %s nil)) (> (stamp %s) %s) (<= (stamp %s) %s) (= (ftag %s) %s))", name, name, p.entry.now, name, p.st.epochNow, name, tag))
 			// distinct from other allocation sites of this function
 			for i, o := range p.fx.allocs {
 				if o == a {
